@@ -192,3 +192,33 @@ def d3(ctx):
     obs.append(Ob('D3', 'DjangoCache.has_key/made-key', ok, 'has_key does not test membership of make_key(key, version)',
                   hk.loc() if hk else ''))
     return obs
+
+
+@rule('D4', floor=8, title='every DjangoCache data method reaches the underlying cache on every return path (no shortcut that skips the operation)')
+def d4(ctx):
+    obs = []
+    ci = ctx.prog.classes['DjangoCache']
+    for name in ('add', 'get', 'set', 'touch', 'pop', 'delete', 'incr', 'decr', 'has_key', 'read'):
+        f = ci.methods.get(name)
+        if f is None:
+            raise AnalysisError('anchor vanished: DjangoCache.%s' % name)
+        ok, wit, n = True, None, 0
+        for p in ctx.paths(f, 'default'):
+            if p.kind not in ('return', 'next'):
+                continue
+            n += 1
+            down = [e for e in p.trace if e.kind == 'CALL' and e.fn is f and
+                    all(t.cls in ('FanoutCache', 'DjangoCache') for t in e.d['targets']) and
+                    e.d['targets'][0].name not in ('get_backend_timeout', 'make_key')]
+            if len(down) != 1:
+                ok, wit = False, fmt_trace(p.trace)
+            elif p.kind == 'return':
+                rv = p.outcome[1]
+                dv = V('ret', down[0].seq, tuple(sorted(t.qual for t in down[0].d['targets'])))
+                if rv != dv:
+                    ok, wit = False, fmt_trace(p.trace)
+        obs.append(Ob('D4', 'DjangoCache.%s/always-delegates' % name, ok and n > 0,
+                      'DjangoCache.%s has a return path that does not perform exactly one operation on the underlying '
+                      'cache and return its result (e.g. a shortcut for "already expired" timeouts that leaves an '
+                      'existing live value in place)' % name, f.loc(), wit))
+    return obs
